@@ -154,6 +154,13 @@ pub fn json_has_dup_key(b: &[u8]) -> bool {
 	}
 }
 
+/// Known finding K11's class: JSON input that spells the `toml` crate's private
+/// date-time key as an object key.
+pub fn json_has_toml_datetime_key(b: &[u8]) -> bool {
+	let key = b"\"$__toml_private_datetime\"";
+	b.windows(key.len()).any(|w| w == key)
+}
+
 /// Known finding K7's class (first half): a complete first JSON value can be
 /// read from the start of the bytes without any UTF-8 check (what the JSON
 /// detection trial does on a reader).
@@ -208,6 +215,8 @@ pub fn compare(out: &mut Out, label: &str, bytes: &[u8], from: Option<Fmt>, to: 
 		"K2-yaml-zero-documents"
 	} else if eff == Some(Fmt::Json) && to == Fmt::Toml && json_has_dup_key(bytes) {
 		"K3-json-dup-key-to-toml"
+	} else if eff == Some(Fmt::Json) && to == Fmt::Toml && json_has_toml_datetime_key(bytes) {
+		"K11-json-toml-datetime-key"
 	} else if from.is_none() && std::str::from_utf8(bytes).is_err() && json_first_value_parses(bytes) && eff != Some(Fmt::Json) {
 		// Detection chose differently in the two supply modes (K7).
 		"K7-json-trial-non-utf8"
